@@ -82,7 +82,7 @@ def _case(draw):
     case["dtype_default"] = ((width == "float32" or ns != "torch") and cls not in ("composite", "flowtransform")
                              and draw(st.booleans()))
     if cls in ("composite", "flowtransform"):
-        kinds = draw(st.lists(st.sampled_from(["bounded", "bounded", "periodic", "free"] if cls == "composite" else ["bounded", "bounded", "free"]),
+        kinds = draw(st.lists(st.sampled_from(["bounded", "bounded", "periodic", "free", "half"] if cls == "composite" else ["bounded", "bounded", "free", "half"]),
                               min_size=d, max_size=d))
         case["kinds"] = kinds
         case["b2u"] = draw(st.booleans()) if "bounded" not in kinds else draw(st.sampled_from([True, True, False]))
@@ -103,7 +103,7 @@ def _case(draw):
     case["u"] = us
     if cls == "periodic" or "periodic" in case.get("kinds", []):
         case["turns"] = [[draw(st.one_of(st.integers(-3, 3), st.integers(-10**6, 10**6))) for _ in range(d)] for _ in range(rows)]
-    if cls in ("affine",) or case.get("affine") or "free" in case.get("kinds", []):
+    if cls in ("affine",) or case.get("affine") or "free" in case.get("kinds", []) or "half" in case.get("kinds", []):
         case["free_seed"] = draw(st.integers(0, 2**31 - 1))
         case["free_scale"] = draw(st.sampled_from([1e-3, 1.0, 50.0, 1e4]))
         case["free_shift"] = draw(st.sampled_from([0.0, 1.0, -30.0, 1e3]))
@@ -420,14 +420,25 @@ def _composite(case, ctx, labels, x64, u):
     params = [f"p{i}" for i in range(d)]
     lo = list(case["lower"]); hi = list(case["upper"])
     per_cols = [i for i, k in enumerate(kinds) if k == "periodic"]
-    free_cols = [i for i, k in enumerate(kinds) if k == "free"]
+    # "half": bounded on one side only - not mapped to the real line (there is no finite width), i.e. treated like a free column
+    free_cols = [i for i, k in enumerate(kinds) if k in ("free", "half")]
     bnd_cols = [i for i, k in enumerate(kinds) if k == "bounded"] if case["b2u"] else []
     x = x64.copy()
     if free_cols:
         x[:, free_cols] = _free_cols(case, rows, len(free_cols))
+        for i in free_cols:
+            if kinds[i] == "half":  # keep the points on the supported side of the single bound
+                x[:, i] = (lo[i] + np.abs(x[:, i] - lo[i])) if i % 2 == 0 else (hi[i] - np.abs(x[:, i] - hi[i]))
     if per_cols:
         x = _periodic_points(case, x, per_cols)
-    bounds = {p: ([-np.inf, np.inf] if kinds[i] == "free" else _as_written(case, [lo[i], hi[i]])) for i, p in enumerate(params)}
+    def _b(i):
+        if kinds[i] == "free":
+            return [-np.inf, np.inf]
+        if kinds[i] == "half":
+            return [_as_written(case, [lo[i]])[0], np.inf] if i % 2 == 0 else [-np.inf, _as_written(case, [hi[i]])[0]]
+        return _as_written(case, [lo[i], hi[i]])
+
+    bounds = {p: _b(i) for i, p in enumerate(params)}
     if case.get("order_seed", 0) % 2:  # the mapping may list the names in another order than `parameters`
         items = list(bounds.items())
         bounds = dict(items[i] for i in np.random.default_rng(case["order_seed"]).permutation(len(items)))
